@@ -9,6 +9,8 @@
 //!   `ya` / `yb`   the USER sends the statement `USE ka` / `USE kb` through session.query_unpaged: one connection switches,
 //!                 then the session itself calls use_keyspace(<name the server returned>, true) before the query returns
 //!   `f1` / `f0`   from now on the nodes answer `USE` with an Invalid error / normally again
+//!   `h<i>`        from now on node i alone does not answer `USE` (its pool's USE times out after `ct` ms while the other
+//!                 nodes acknowledge; its connections stay published); `t0` ends it
 //!   `t1` / `t0`   from now on the nodes do not answer `USE` at all (the call times out after `ct` ms) / normally again
 //!   `q<k>`        k requests, one after another
 //!   `c<k>`        k requests concurrently
@@ -35,7 +37,7 @@ use std::time::Duration;
 /// Histories that REPEAT a name: after a failed / timed-out call, concurrently, an invalid name several times, the
 /// same name with the other case_sensitive flag.
 fn generate_repeats(rng: &mut Rng, tier: Tier, emit: &mut dyn FnMut(String)) {
-    let n_cases = if tier == Tier::Quick { 42 } else { 420 };
+    let n_cases = if tier == Tier::Quick { 48 } else { 480 };
     for c in 0..n_cases {
         let n = 1 + rng.below(3);
         let name = *rng.pick(&["a", "b", "A"]);
@@ -48,7 +50,18 @@ fn generate_repeats(rng: &mut Rng, tier: Tier, emit: &mut dyn FnMut(String)) {
             ops.push(format!("u{}", other));
             ops.push(rq(rng));
         }
-        match c % 7 {
+        match c % 8 {
+            // ONE node does not answer the USE (its pool times out, stays published), the others acknowledge
+            7 => {
+                ct = 300;
+                ops.push(format!("h{}", rng.below(n)));
+                ops.push(format!("u{}", name));
+                ops.push(rq(rng));
+                ops.push("c6".into());
+                ops.push("t0".into());
+                ops.push(format!("u{}", name));
+                ops.push(rq(rng));
+            }
             // a user-issued USE statement (the session follows up by itself), also after a failed call for the same name
             6 => {
                 if rng.bool() {
@@ -254,13 +267,16 @@ pub fn run(words: &[&str], ctx: &mut Ctx) -> String {
     // (reject USE with an Invalid error, do not answer USE at all)
     let faults: std::sync::Arc<std::sync::Mutex<(bool, bool)>> = Default::default();
     let faults_h = std::sync::Arc::clone(&faults);
+    // nodes that alone do not answer USE
+    let held_nodes: std::sync::Arc<std::sync::Mutex<Vec<usize>>> = Default::default();
+    let held_h = std::sync::Arc::clone(&held_nodes);
     let handler = with_std_prepare(move |r: &Req| match &r.parsed {
         Parsed::Query { text, .. } if parse_use(text).is_some() => {
             // the keyspace a server selects: a quoted name as it is, an unquoted one lower-cased
             let raw = text.trim()[4..].trim().trim_end_matches(';').trim().to_owned();
             let k = if raw.starts_with('"') { raw.trim_matches('"').to_owned() } else { raw.to_ascii_lowercase() };
             let (reject, mute) = *faults_h.lock().unwrap();
-            if mute {
+            if mute || held_h.lock().unwrap().contains(&r.node) {
                 return vec![];
             }
             if reject {
@@ -328,6 +344,12 @@ pub fn run(words: &[&str], ctx: &mut Ctx) -> String {
                         Ok(()) => {
                             if !valid {
                                 ctx.fail(format!("e2e keyspace: use_keyspace({:?}) (op #{} `{}`) returned Ok for an invalid name", name, oi, op));
+                            }
+                            if valid && !held_nodes.lock().unwrap().is_empty() {
+                                ctx.fail(format!(
+                                    "e2e keyspace: use_keyspace({:?}) (op #{} `{}`) returned Ok although node(s) {:?} never answered the USE (their pools timed out; their connections stay published without the keyspace)",
+                                    name, oi, op, held_nodes.lock().unwrap()
+                                ));
                             }
                             confirmed = server_keyspace(name, flag);
                             uses_ok += 1;
@@ -399,7 +421,17 @@ pub fn run(words: &[&str], ctx: &mut Ctx) -> String {
                     }
                 }
                 ("f", Some(v)) if v <= 1 => faults.lock().unwrap().0 = v == 1,
-                ("t", Some(v)) if v <= 1 => faults.lock().unwrap().1 = v == 1,
+                ("t", Some(v)) if v <= 1 => {
+                    faults.lock().unwrap().1 = v == 1;
+                    if v == 0 {
+                        held_nodes.lock().unwrap().clear();
+                    }
+                }
+                ("h", Some(i)) => {
+                    if i < cluster.n_nodes() {
+                        held_nodes.lock().unwrap().push(i);
+                    }
+                }
                 ("q", Some(k)) if k <= 64 => results.extend(requests!(k, allowed_now.clone(), false).await),
                 ("c", Some(k)) if k <= 64 => results.extend(requests!(k, allowed_now.clone(), true).await),
                 ("xa", Some(k)) | ("xb", Some(k)) if k <= 64 => {
